@@ -14,6 +14,33 @@ from ..heap import World
 ZOO = "legacy"
 ALLOPS = {"create", "attach", "detach", "detach_self", "replace_prop", "replace_kids", "replace_bad", "replace_with",
           "replace_with_none", "duplicate"}
+TRANSFORM_OPS = {"tvisit", "texec"}
+TRULES = ("keep", "bump", "fresh", "drop", "boom")
+
+
+
+
+def _O(op, c="", a=0, b=0, kids=(), atom=0, mode=""):
+    return dict(op=op, c=c, a=a, b=b, kids=list(kids), atom=atom, mode=mode)
+
+
+# programs that are always run (both tiers): the shortest witnesses of the recorded findings, so that a finding is
+# reported (or seen to be gone) whatever the generated families happen to contain
+FIXED_PROGRAMS = [
+    # transformer-partial-effects: the first leaf is removed, the second one sits in a required field
+    [_O("create", "LLeaf", mode="plain"), _O("create", "LLeaf", mode="plain"), _O("create", "LUnary", kids=[2], mode="plain"),
+     _O("create", "LMany", kids=[1, 3], mode="plain"), _O("texec", a=4, atom=0, mode="drop")],
+    # partial-attach-effects
+    [_O("create", "LLeaf", mode="plain"), _O("create", "LUnary", kids=[1], mode="plain"),
+     _O("create", "LMany", kids=[2, 1], mode="plain")],
+    # id-twin-nested
+    [_O("create", "LLeaf", mode="detached"), _O("duplicate", a=1, mode="detached"), _O("create", "LUnary", kids=[1], mode="detached"),
+     _O("replace_with", a=2, b=3)],
+]
+
+
+class UserBoom(Exception):
+    """raised by the `boom` rule inside a user transformation"""
 KIDFIELD = {"LUnary": "child", "LOpt": "child", "LMany": "items", "LList": "elems"}
 
 
@@ -52,6 +79,15 @@ class Runner:
                 return f"x{i + 1}"
         return "?foreign"
 
+    def canon(self, h: int) -> int:
+        if not h:
+            return h
+        o = self.nodes[h - 1]
+        for i, x in enumerate(self.nodes):
+            if x is o:
+                return i + 1
+        return h
+
     def discover(self):
         """name every node reachable from the handles (and their parents)"""
         stack = [o for o in self.nodes if o is not None]
@@ -73,7 +109,13 @@ class Runner:
                 stack.append(p)
 
     def all_named(self):
-        out = [(f"h{i + 1}", o) for i, o in enumerate(self.nodes) if o is not None]
+        # an operation may return a node that already has a handle (a transformation that changed nothing):
+        # the object keeps its first name
+        out, seen = [], set()
+        for i, o in enumerate(self.nodes):
+            if o is not None and id(o) not in seen:
+                seen.add(id(o))
+                out.append((f"h{i + 1}", o))
         return out + [(f"x{i + 1}", o) for i, o in enumerate(self.extra)]
 
     def cname(self, o):
@@ -128,6 +170,10 @@ class Runner:
                     a.replace_with(None)
                 elif kind == "duplicate":
                     ret = a.duplicate(as_detached_clone=(op["mode"] == "detached"))
+                elif kind == "tvisit":
+                    ret = self.visitor(op["mode"], op["atom"]).transform(a)
+                elif kind == "texec":
+                    ret = self.transformer(op["mode"], op["atom"]).execute(a)
                 else:
                     raise ValueError(kind)
         except self.errs as e:
@@ -135,6 +181,62 @@ class Runner:
         except Exception as e:
             return f"stray:{type(e).__name__}: {e}"[:200], None
         return "ok", ret
+
+    # ---- user transformations (C18 / C19: "transform visitors and transformers")
+    def rule(self, rule: str, atom: int):
+        """what the user's code does to a leaf-like node whose property a is pool atom `atom`"""
+        W = self.W
+        fa = W.zi.field("LLeaf", "a")
+        sel = W.prop_value("LLeaf", fa, atom)
+
+        def act(node):
+            if node.a != sel or rule == "keep":
+                return node
+            if rule == "bump":
+                return node.replace(a=W.prop_value("LLeaf", fa, (atom + 1) % 3))
+            if rule == "fresh":
+                return W.cls("LLeaf")(a=W.prop_value("LLeaf", fa, 2), origin=W.origins[0])
+            if rule == "drop":
+                return None
+            raise UserBoom()
+        return act
+
+    def visitor(self, rule: str, atom: int):
+        from pyoak.legacy.node import ASTTransformVisitor
+        act = self.rule(rule, atom)
+
+        class V(ASTTransformVisitor):
+            def visit_LLeaf(self, node):        # LSub too: dispatch walks the mro
+                return act(node)
+        return V()
+
+    def transformer(self, rule: str, atom: int):
+        from pyoak.legacy.node import ASTTransformer
+        act = self.rule(rule, atom)
+
+        class T(ASTTransformer):
+            def transform(self, node):
+                return act(node) if isinstance(node, self_cls) else node
+        self_cls = self.W.cls("LLeaf")
+        return T()
+
+    def drop_inadmissible(self, op) -> bool:
+        """a `drop` rule used with the visitor on a tree where a selected leaf sits in a required single field
+        (or is the start node of a sequence-less position) is a misuse, not an operation the library must survive"""
+        if op["op"] != "tvisit" or op["mode"] != "drop":
+            return False
+        W = self.W
+        sel = W.prop_value("LLeaf", W.zi.field("LLeaf", "a"), op["atom"])
+        stack, seen = [self.nodes[op["a"] - 1]], set()
+        while stack:
+            o = stack.pop()
+            if id(o) in seen:
+                continue
+            seen.add(id(o))
+            if self.cname(o) == "LUnary" and isinstance(o.child, W.cls("LLeaf")) and o.child.a == sel:
+                return True
+            stack.extend(o.get_child_nodes())
+        return False
 
     # ---- projection
     def fresh_cid(self, o, memo):
@@ -253,8 +355,9 @@ def run_program(W, prog, sink: dict, strays: list):
     from pyoak.legacy.node import AwareASTNode
     R = Runner(W)
     clean = True
+    trail: list = []        # hashes of the transitions this program went through so far
     pre = R.alpha()
-    CREATING = ("create", "replace_prop", "replace_kids", "duplicate")
+    CREATING = ("create", "replace_prop", "replace_kids", "duplicate", "tvisit", "texec")
     for step, op in enumerate(prog):
         refs = [op["a"], op["b"]] + list(op["kids"] or [])
         if any(h and (h > len(R.nodes) or R.nodes[h - 1] is None) for h in refs):
@@ -268,6 +371,11 @@ def run_program(W, prog, sink: dict, strays: list):
             a, b = R.nodes[op["a"] - 1], R.nodes[op["b"] - 1]
             if reaches(R, b, a) or reaches(R, a, b):
                 break
+        if R.drop_inadmissible(op):
+            break
+        # a handle whose node already has an earlier handle (a transformation returned its argument) is spelled
+        # with the earlier one, so that names in operations and states agree
+        op = dict(op, a=R.canon(op["a"]), b=R.canon(op["b"]), kids=[R.canon(k) for k in (op["kids"] or [])])
         nreg0 = len(AwareASTNode._nodes)
         outcome, ret = R.apply(op)
         if outcome.startswith("stray:"):
@@ -284,7 +392,11 @@ def run_program(W, prog, sink: dict, strays: list):
         hsh = hashlib.sha1(json.dumps(line, sort_keys=True).encode()).hexdigest()
         if hsh not in sink:
             line["witness"] = prog[: step + 1]
+            line["hsh"] = hsh
+            line["alts"] = []
             sink[hsh] = line
+        add_alt(sink[hsh], list(trail), prog[: step + 1])
+        trail.append(hsh)
         if outcome != "ok" or R.double_placement_or_cycle():
             clean = False
         pre = post
@@ -294,6 +406,35 @@ def run_program(W, prog, sink: dict, strays: list):
             AwareASTNode._nodes.pop(o.id, None)
     for i in list(AwareASTNode._nodes.keys()):
         AwareASTNode._nodes.pop(i, None)
+
+
+MAXALTS = 6
+
+
+def add_alt(line, prior, witness):
+    """a transition is kept once; up to MAXALTS histories that reached it are kept with it (distinct sets of prior
+    transitions), so that a later verdict "the history was already inconsistent" is only given when that holds for
+    every history seen"""
+    ps = set(prior)
+    for a in line["alts"]:
+        if set(a["prior"]) == ps:
+            return
+    if len(line["alts"]) < MAXALTS:
+        line["alts"].append({"prior": prior, "witness": witness})
+    else:
+        # prefer short histories: fewer earlier transitions that could have broken something
+        j = max(range(MAXALTS), key=lambda x: len(line["alts"][x]["prior"]))
+        if len(prior) < len(line["alts"][j]["prior"]):
+            line["alts"][j] = {"prior": prior, "witness": witness}
+
+
+def merge_sink(dst, src):
+    for h, ln in src.items():
+        if h not in dst:
+            dst[h] = ln
+        else:
+            for a in ln["alts"]:
+                add_alt(dst[h], a["prior"], a["witness"])
 
 
 def _exec(chunk, arg):
@@ -336,7 +477,7 @@ def random_program(rng, length, classes):
         else:
             a = rng.choice(H)
             kind = rng.choice(["attach", "detach", "detach_self", "replace_prop", "replace_kids", "replace_bad", "replace_with",
-                               "replace_with_none", "duplicate", "duplicate", "replace_with", "replace_kids"])
+                               "replace_with_none", "duplicate", "duplicate", "replace_with", "replace_kids", "tvisit", "texec"])
             op = dict(op=kind, c="", a=a, b=0, kids=[], atom=0, mode="")
             if kind == "replace_prop":
                 if cls[a - 1] not in ("LLeaf", "LSub"):
@@ -359,6 +500,10 @@ def random_program(rng, length, classes):
             elif kind == "duplicate":
                 op["mode"] = rng.choice(["attached", "detached"])
                 cls.append(cls[a - 1])
+            elif kind in TRANSFORM_OPS:
+                op["mode"] = rng.choice(TRULES if kind == "tvisit" else TRULES[:4])
+                op["atom"] = rng.randrange(2)
+                cls.append(cls[a - 1])
         prog.append(op)
     return prog
 
@@ -378,10 +523,10 @@ def _exec_random(chunk, arg):
 
 
 def gen_scripts(chk, maxlen, maxhandles, classes, maxkids, name, ops=None, modes=("plain", "detached", "unique"),
-                dupmodes=("attached", "detached"), atoms=(0, 1)):
+                dupmodes=("attached", "detached"), atoms=(0, 1), trules=TRULES):
     mod, cfg = inst.instance("I_LegacyScripts", "LegacyScripts",
                              dict(MaxLen=maxlen, MaxHandles=maxhandles, GenClasses=set(classes), MaxKids=maxkids, Ops=set(ops or ALLOPS),
-                                  Modes=set(modes), DupModes=set(dupmodes), Atoms=set(atoms)),
+                                  Modes=set(modes), DupModes=set(dupmodes), Atoms=set(atoms), TRules=set(trules)),
                              invariants=["EmitInv"])
     (chk.wd / "I_LegacyScripts.tla").write_text(mod)
     r = tlc.run(chk.wd, "I_LegacyScripts", cfg, workers=core.NPROC, timeout=3000, heap="8g")
@@ -395,7 +540,7 @@ def monitor(chk, lines, name="monitor"):
     f = chk.wd / f"{name}.ndjson"
     with open(f, "w") as fh:
         for ln in lines:
-            fh.write(json.dumps({k: v for k, v in ln.items() if k != "witness"}) + "\n")
+            fh.write(json.dumps({k: v for k, v in ln.items() if k not in ("witness", "alts", "hsh")}) + "\n")
     cfg = "INIT Init\nNEXT Next\nPOSTCONDITION Done\nCHECK_DEADLOCK FALSE\n"
     r = tlc.run(chk.wd, "Trace_Legacy", cfg, workers=1, timeout=3000, env={"TRACE_FILE": str(f)}, heap="8g")
     chk.note_tlc(f"Trace_Legacy/{name}", r, "trace-validation")
@@ -408,7 +553,7 @@ def monitor(chk, lines, name="monitor"):
 def collect(chk, results):
     sink, strays = {}, []
     for s, st, n in results:
-        sink.update(s)
+        merge_sink(sink, s)
         strays.extend(st)
         chk.evaluations += n
     return sink, strays
@@ -427,13 +572,28 @@ def run(chk: core.Check, pid: str, classify):
                         modes=("plain",), dupmodes=("attached",), atoms=(0,))
     raws += gen_scripts(chk, 5 if quick else 6, 4, ["LLeaf", "LMany"], 2, "focus-replace",
                         ops={"create", "replace_with", "replace_with_none", "detach"}, modes=("plain",), atoms=(0,))
+    # user transformations: visitors (work on a detached clone, then replace_with) and transformers (in place, bottom-up)
+    if quick:
+        raws += gen_scripts(chk, 4, 4, ["LLeaf", "LMany"], 2, "focus-transform",
+                            ops={"create", "tvisit", "texec"}, modes=("plain",), atoms=(0,))
+        raws += gen_scripts(chk, 4, 4, ["LLeaf", "LUnary", "LOpt"], 1, "focus-transform-single",
+                            ops={"create", "tvisit", "texec", "detach"}, modes=("plain", "detached"), atoms=(0,),
+                            trules=("bump", "drop", "boom"))
+    else:
+        raws += gen_scripts(chk, 4, 4, ["LLeaf", "LMany"], 2, "focus-transform",
+                            ops={"create", "tvisit", "texec"}, modes=("plain",), atoms=(0, 1))
+        raws += gen_scripts(chk, 4, 4, ["LLeaf", "LSub", "LUnary", "LOpt"], 1, "focus-transform-single",
+                            ops={"create", "tvisit", "texec", "detach"}, modes=("plain", "detached"), atoms=(0,),
+                            trules=("bump", "fresh", "drop", "boom"))
+        raws += gen_scripts(chk, 5, 5, ["LLeaf", "LUnary", "LMany"], 2, "focus-transformer-partial",
+                            ops={"create", "texec"}, modes=("plain",), atoms=(0,), trules=("drop",))
+    raws += [json.dumps(json.dumps({"prog": p})) for p in FIXED_PROGRAMS]
     chk.replayed += len(raws)
     sink, strays = collect(chk, core.parallel(_exec, raws, {}, chunk=400))
     rng = random.Random(chk.seed + 61)
     seeds = [rng.randrange(1 << 30) for _ in range(6000 if quick else 60000)]
     s2, st2 = collect(chk, core.parallel(_exec_random, seeds, {"length": 12}, chunk=100))
-    for k, v in s2.items():
-        sink.setdefault(k, v)
+    merge_sink(sink, s2)
     strays += st2
     lines = list(sink.values())
     # only the transitions this property judges
@@ -451,13 +611,29 @@ def run(chk: core.Check, pid: str, classify):
             chk.nontrivial.add(hash(json.dumps(ln["op"], sort_keys=True) + ln["outcome"] + json.dumps(ln["pre"], sort_keys=True)))
     if lines:
         chk.sample({"witness_program": lines[len(lines) // 2]["witness"], "outcome": lines[len(lines) // 2]["outcome"]})
+    consequences = 0
+    bad = {lines[i - 1]["hsh"] for i in rej}
     for i, (outcome, clauses) in sorted(rej.items()):
         ln = lines[i - 1]
+        wit = first_sound_history(ln, bad) if pid == "C18" else ln["witness"]
+        if wit is None:
+            consequences += 1       # every history seen had broken the invariants before this step: the first break is reported
+            continue
         for cl in sorted(clauses):
-            v = core.Violation(f"{ln['op']['op']}->{outcome}:{cl}", {"m": "legacy-program", "prog": ln["witness"]},
-                               f"program {json.dumps(ln['witness'])[:400]}: after {ln['op']['op']} ({outcome}) clause {cl} fails")
+            v = core.Violation(f"{ln['op']['op']}->{outcome}:{cl}", {"m": "legacy-program", "prog": wit},
+                               f"program {json.dumps(wit)[:400]}: after {ln['op']['op']} ({outcome}) clause {cl} fails")
             v.finding = classify(ln, outcome, cl)
             chk.add(v)
+    chk.notes["transitions_after_an_earlier_break_not_reported_again"] = consequences
+
+
+def first_sound_history(ln, bad):
+    """C18 is an invariant of histories: a transition is reported for a history in which no earlier transition had
+    already broken it (that one is reported).  -> witness program, or None when every recorded history was broken"""
+    for a in ln["alts"]:
+        if not (set(a["prior"]) & bad):
+            return a["witness"]
+    return None
 
 
 def replay(chk, data, pid, classify):
@@ -471,8 +647,11 @@ def replay(chk, data, pid, classify):
     if not lines:
         return
     rej = monitor(chk, lines, "replay")
+    bad = {lines[i - 1]["hsh"] for i in rej}
     for i, (outcome, clauses) in rej.items():
         ln = lines[i - 1]
+        if pid == "C18" and first_sound_history(ln, bad) is None:
+            continue
         for cl in clauses:
             v = core.Violation(f"{ln['op']['op']}->{outcome}:{cl}", data["case"], "still violated")
             v.finding = classify(ln, outcome, cl)
@@ -530,6 +709,52 @@ def finding_partial_attach(ln, outcome, clause):
         if n not in allowed or not diff <= {"det", "par", "pf", "pi"}:
             return None
     return "partial-attach-effects"
+
+
+def finding_transformer_partial(ln, outcome, clause):
+    """C19: ASTTransformer.execute works in place, bottom-up; when the replacement of a later node is refused
+    (a selected leaf in a required field cannot be removed) the earlier removals stay.  Exactly that shape: the leaves
+    the rule selects and that sit in sequences / optional fields are detached and unlinked, their former siblings shift,
+    content ids change along the way up; the refused leaf and everything outside the receiver's tree are untouched."""
+    op = ln["op"]
+    if op["op"] != "texec" or outcome != "ASTTransformError" or op["mode"] != "drop":
+        return None
+    pre, post = ln["pre"], ln["post"]
+    root = f"h{op['a']}"
+    if root not in pre:
+        return None
+    sub: set = set()
+    _subtree(pre, root, sub)
+    anc, a, guard = set(), pre[root]["par"], 0
+    while a != "none" and a in pre and guard < 50:
+        anc.add(a)
+        a = pre[a]["par"]
+        guard += 1
+    removed = 0
+    for n, x in pre.items():
+        y = post.get(n)
+        if y is None:
+            return None
+        diff = {k for k in ("det", "par", "pf", "pi", "p", "k", "idc", "oidc", "cidc") if x[k] != y[k]}
+        if not diff:
+            continue
+        selected = n in sub and x["c"] in ("LLeaf", "LSub") and x["p"].get("a") == op["atom"]
+        if selected:
+            par = pre.get(x["par"])
+            if par is None or (par["c"] == "LUnary" and x["pf"] == "child"):
+                return None             # the leaf whose removal was refused (or a root) must be as before
+            if not diff <= {"det", "par", "pf", "pi"} or not y["det"]:
+                return None
+            removed += 1
+        elif n in sub:
+            if not diff <= {"pi", "k", "cidc"}:
+                return None
+        elif n in anc:
+            if not diff <= {"cidc"}:
+                return None
+        else:
+            return None
+    return "transformer-partial-effects" if removed else None
 
 
 def finding_id_twin_nested(ln, outcome, clause):
